@@ -89,6 +89,15 @@ func (w *World) eventSubscribed(name string) bool { return w.s.tr.isSubscribed("
 func (s *Sim) applySvc(op *SvcOp) bool {
 	w := s.W
 	switch op.Op {
+	case "burst":
+		// Idx custom events in a row
+		ok := false
+		for i := 0; i < op.Idx; i++ {
+			if s.applySvc(&SvcOp{Op: "custom", Name: op.Name, Ev: "ping"}) {
+				ok = true
+			}
+		}
+		return ok
 	case "change", "add", "remove", "custom", "delete", "reaccess":
 		r := w.Res[op.Name]
 		if r == nil || r.IsQuery || (r.Kind != 'm' && r.Kind != 'c') {
